@@ -87,10 +87,25 @@ func c17Cases(seed uint64, tier string) []core.Case {
 					rest = append(rest, x)
 				}
 			}
-			cs = append(out, rest...)
+			cs = nil
+			for len(out) > 0 || len(rest) > 0 { // alternate: outbound, inbound, outbound, ...
+				if len(out) > 0 {
+					cs, out = append(cs, out[0]), out[1:]
+				}
+				if len(rest) > 0 {
+					cs, rest = append(cs, rest[0]), rest[1:]
+				}
+			}
 		}
-		for i := 0; i < per && i < len(cs); i++ {
+		take := per
+		if pid == "C19" {
+			take = per + 1 // one of each kind even at the quick tier
+		}
+		for i := 0; i < take && i < len(cs); i++ {
 			k := (i * 7) % len(cs)
+			if pid == "C19" {
+				k = i
+			}
 			out = append(out, core.MkCase(fmt.Sprintf("C17-%s-%d", pid, i), c17Spec{Seed: rng.Uint64(), Kind: "workload", Prop: pid, Case: cs[k], Reps: reps}))
 		}
 	}
